@@ -7,12 +7,14 @@
      gen_chain_lowering_is_chain_lower   for every chain [chain_compiles] accepts, NewChain, the GENERATED Append*
                                          calls of its stages and the GENERATED addEndIfNeeded build exactly the graph
                                          [chain_lower] of Model/Chain.v;
+     gen_chain_lowering_decides          and they report an error for every chain it rejects (Proofs/ChainLowerReject.v):
+                                         gen_compile = if chain_compiles then chain_lower else None;
      gen_chain_runs_as_eval_chain        hence the graph the regenerated lowering builds runs as the sequential
                                          meaning [eval_chain] (chain_lowering_correct_dec of Props/C01.v).
    An edge to END from the first previous node only, a Parallel attached to the wrong predecessor, preNodeKeys
    not replaced after a Branch, a dropped length check … make a theorem here stop compiling. *)
 From Eino Require Import Base.Util Model.Graph Model.Chain Model.ChainSpec Model.ChainCompile Model.ImpGenLib Model.ChainGenLib Model.ChainLowerSpec Model.ChainLowerInst.
-From Eino Require Import Proofs.PregelBase Proofs.PregelRun Proofs.PregelChainLower Proofs.PregelChainCompile Proofs.ChainLowerModel.
+From Eino Require Import Proofs.PregelBase Proofs.PregelRun Proofs.PregelChainLower Proofs.PregelChainCompile Proofs.ChainLowerModel Proofs.ChainLowerReject.
 From Eino Require Gen.ChainLower.
 From Coq Require Import Lia.
 
@@ -300,6 +302,17 @@ Section Tie.
     gen_compile sts max = chain_lower sts max.
   Proof.
     intros sts max Hc Hk. rewrite <- (li_compile_is_chain_lower auto_key k_empty sts max Hc Hk).
+    unfold gen_compile, li_compile.
+    rewrite (fold_left_ext_chain gen_stage (li_stage auto_key k_empty) sts li_init gen_stage_is_li_stage).
+    rewrite (gen_chain_addEndIfNeeded_agrees (list node) li_err). reflexivity.
+  Qed.
+
+  (* both directions: the regenerated lowering accepts exactly the chains [chain_compiles] accepts *)
+  Theorem gen_chain_lowering_decides : forall sts max,
+    ~ In k_empty (chain_all_keys sts) ->
+    gen_compile sts max = if chain_compiles sts then chain_lower sts max else None.
+  Proof.
+    intros sts max Hk. rewrite <- (li_compile_decides auto_key k_empty sts max Hk).
     unfold gen_compile, li_compile.
     rewrite (fold_left_ext_chain gen_stage (li_stage auto_key k_empty) sts li_init gen_stage_is_li_stage).
     rewrite (gen_chain_addEndIfNeeded_agrees (list node) li_err). reflexivity.
